@@ -48,9 +48,9 @@ CLAIMS = {
     "C10": C("differential testing of generated programs: typed chain grammar rendered as konst DSL and as the identical std chain, compared on enumerated inputs",
              "A committed pairwise corpus (every adapter x every consumer) plus seeded random chains (depth <= 5, 14 sources, 13 adapters, 13 consumers, all closure forms, eval!/for_each!, and a const-context collect_const! batch) are compiled against /repo and run on all small inputs; disagreements are attributed to the listed known finding only when the chain has its structural signature and equals the source-reversed alternative model.",
              "DESIGN.md §3 C10", "progs/gen_chain.py"),
-    "C11": C("model-based testing of builder histories + generated hostile-closure programs + Miri",
-             "map!/map_!/from_fn!/from_fn_! vs std for N in 0..=6 and three element types; all ArrayBuilder op sequences up to depth 6 against a model with a magic-stamped element type; 540+ generated programs with every kind of early exit inside the closure at every element, whose outcome must be compile error / panic / counted loop / left the macro / fully written array; thorough reruns both under Miri.",
-             "DESIGN.md §3 C11", "harness/src/bin/c11.rs, progs/gen_closure_exits.py"),
+    "C11": C("model-based testing of builder histories + generated hostile-closure programs + generated const collect_const! programs differential against std collect + Miri",
+             "map!/map_!/from_fn!/from_fn_! vs std for N in 0..=6 and three element types; all ArrayBuilder op sequences up to depth 6 against a model with a magic-stamped element type; 1100+ generated programs with every kind of early exit inside the closure at every element and every closure-parameter binding form (x, x: T, mut x, ref x, ref mut x with the closure changing its parameter), whose outcome must be compile error / panic / counted loop / left the macro / fully written std-equal array; 500 (thorough 4000) generated const collect_const! items over six item types compared with std collect; thorough reruns the first two under Miri.",
+             "DESIGN.md §3 C11, §9.3 F8", "harness/src/bin/c11.rs, progs/gen_closure_exits.py, progs/gen_collect.py"),
     "C13": C("stateful (operation-history) testing of Parser against its own reported offsets: exhaustive depth 1-3 + seeded proptest histories",
              "Every Parser method with 11 pattern arguments is applied in all sequences of depth 1-2 (rich set) and depth 3 (reduced set) to ~270 originals and three base offsets, plus random histories to depth 12: after every Ok step remainder() must be original[start-base..end-base] on char boundaries nested in the previous range, after every Err the error offset/direction must name the start or end of the parser it was called on.",
              "DESIGN.md §3 C13/C14", "harness/src/bin/c13.rs"),
